@@ -26,7 +26,6 @@ def jobs(tier):
     js.append(job(M, "c08_big", "n999/concrete", dict(n=999) if t else dict(n=300), max_seconds=ms))
     if t:
         js += [*split(job(M, "c08", "stale-codes/n3", dict(n=3, mode="stale", strings=False), max_seconds=ms), "stale_code", 7),
-               *split(job(M, "c08", "stale-codes+iso/n3", dict(n=3, mode="stale", with_iso=True, strings=False), max_seconds=ms), "stale_code", 7),
                *split(job(M, "c08", "codes/n3/DT", dict(n=3, mode="codes", symbols=["C", "D", "T"], strings=False), max_seconds=ms), "el0", 3),
                *split(job(M, "c08", "lines/n3/unrelated", dict(n=3, mode="lines", unrelated=True, strings=False), max_seconds=ms), "unrelated", 9),
                *[job(M, "c08", f"layout/n3/order{go}", dict(n=3, mode="layout", grouporder=go), max_seconds=ms) for go in range(6)],
